@@ -52,3 +52,21 @@ Definition reg_dir (tab : list locinfo) (s : st) (e : nat * path) : st :=
 Definition reg_dirs (tab : list locinfo) (s : st) (l : list (nat * path)) : st := fold_left (reg_dir tab) l s.
 Definition loc_dirs (locs : list nat) (dirs : list path) : list (nat * path) :=
   flat_map (fun li => map (pair li) dirs) locs.
+
+(* ---- the registration loop body as the code has it, with the realpath branch ----
+   _schedule, for every (location, directory) that get_data_locations does not report:
+     realpath = resolve(directory) on that location            (file-system oracle [realpath])
+     if realpath != directory: register_path(location, realpath)                        (PRIMARY)
+     register_path(location, directory, PRIMARY if realpath == directory else SYMBOLIC_LINK) *)
+Definition reg_dir_rp (tab : list locinfo) (realpath : nat * path -> path) (s : st) (e : nat * path) : st :=
+  if available s (snd e) (key_of tab (fst e)) then s
+  else let rp := realpath e in
+       if path_eqb rp (snd e) then fst (register tab s (fst e) (snd e) PRIMARY)
+       else fst (register tab (fst (register tab s (fst e) rp PRIMARY)) (fst e) (snd e) SYMBOLIC_LINK).
+Definition reg_dirs_rp (tab : list locinfo) (realpath : nat * path -> path) (s : st) (l : list (nat * path)) : st :=
+  fold_left (reg_dir_rp tab realpath) l s.
+(* the oracle used by the correspondence: on the locations [syms] the work directory [w] is a symbolic link to [rw] *)
+Definition realpath_of (w rw : path) (syms : list nat) (e : nat * path) : path :=
+  if existsb (Nat.eqb (fst e)) syms
+  then match strip_prefix w (snd e) with Some rest => rw ++ rest | None => snd e end
+  else snd e.
